@@ -43,7 +43,7 @@ Fixpoint out_vars (p : plan) : list var :=
   match p with
   | PScan x _ => [x]
   | PScanIn x _ _ => [x]
-  | PExpand _ t ev _ _ inp => t :: (match ev with Some e => [e] | None => [] end) ++ out_vars inp
+  | PExpand _ t ev _ _ h inp => t :: (match ev with Some e => [e] | None => [] end) ++ out_vars inp
   | PFilter _ inp => out_vars inp
   | PProject items inp => aliases items ++ out_vars inp
   | PJoin _ _ l r => out_vars l ++ out_vars r
@@ -59,6 +59,17 @@ Fixpoint out_vars (p : plan) : list var :=
 Definition uses_any (vs : list var) (s : list var) : bool := existsb (fun v => mem v s) vs.
 Definition disjointb (a b : list var) : bool := negb (uses_any a b).
 
+(** the variables an Expand introduces, as [try_push_filter_into] lists them: target, edge
+    variable, path alias (the path *length* column [_path_length_p] is not in the list) *)
+Definition xintro (t : var) (ev : option var) (h : hops) : list var :=
+  t :: (match ev with Some e => [e] | None => [] end) ++ (match h_path h with Some p => [p] | None => [] end).
+Definition xhidden (h : hops) : list var := match h_path h with Some p => [plen_name p] | None => [] end.
+
+Fixpoint nodupb (l : list var) : bool :=
+  match l with [] => true | x :: l' => negb (mem x l') && nodupb l' end.
+Definition subsetb (a b : list var) : bool := forallb (fun x => mem x b) a.
+
+
 (** ** Filter push-down *)
 Fixpoint try_push (pred : expr) (op : plan) : plan :=
   match op with
@@ -67,11 +78,11 @@ Fixpoint try_push (pred : expr) (op : plan) : plan :=
       then PProject items (try_push pred inp)
       else PFilter pred op
   | PReturn items d inp => PReturn items d (try_push pred inp)
-  | PExpand f t ev d ty inp =>
-      let introduced := t :: (match ev with Some e => [e] | None => [] end) in
+  | PExpand f t ev d ty h inp =>
+      let introduced := xintro t ev h in
       if uses_any (expr_vars pred) introduced
       then PFilter pred op
-      else PExpand f t ev d ty (try_push pred inp)
+      else PExpand f t ev d ty h (try_push pred inp)
   | PJoin k cs l r =>
       let pv := expr_vars pred in
       let uses_left := uses_any pv (out_vars l) in
@@ -91,7 +102,7 @@ Fixpoint pfd (op : plan) : plan :=
   | PSkip n inp => PSkip n (pfd inp)
   | PSort ks inp => PSort ks (pfd inp)
   | PDistinct inp => PDistinct (pfd inp)
-  | PExpand f t ev d ty inp => PExpand f t ev d ty (pfd inp)
+  | PExpand f t ev d ty h inp => PExpand f t ev d ty h (pfd inp)
   | PJoin k cs l r => PJoin k cs (pfd l) (pfd r)
   | PAgg gs ags inp => PAgg gs ags (pfd inp)
   | PEmpty | PScan _ _ | PScanIn _ _ _ | PLeftJoin _ _ | PUnion _ _ => op
@@ -100,6 +111,8 @@ Fixpoint pfd (op : plan) : plan :=
 (** *** Where the push-down is justified
     [pfd_ok p] follows the recursion of [pfd]/[try_push] and is false as soon as a predicate is moved
     to a place where one of its variables means something else:
+      - through an Expand with a path alias [p] although it mentions the hidden column
+        [_path_length_p] (the code only looks for [p]),
       - through a Project/Return although a variable it mentions is not an identity pass-through
         column of that operator (the code only looks at *aliases*, and not at all for Return),
       - into one side of a join although it mentions a column of the other side (the code decides
@@ -125,9 +138,10 @@ Fixpoint try_push_ok (pred : expr) (op : plan) : bool :=
       then through_ok (expr_vars pred) items inp && try_push_ok pred inp
       else true
   | PReturn items d inp => through_ok (expr_vars pred) items inp && try_push_ok pred inp
-  | PExpand f t ev d ty inp =>
-      let introduced := t :: (match ev with Some e => [e] | None => [] end) in
-      if uses_any (expr_vars pred) introduced then true else try_push_ok pred inp
+  | PExpand f t ev d ty h inp =>
+      let introduced := xintro t ev h in
+      if uses_any (expr_vars pred) introduced then true
+      else disjointb (expr_vars pred) (xhidden h) && try_push_ok pred inp
   | PJoin k cs l r =>
       let pv := expr_vars pred in
       let uses_left := uses_any pv (out_vars l) in
@@ -143,7 +157,7 @@ Fixpoint pfd_ok (op : plan) : bool :=
   match op with
   | PFilter e inp => pfd_ok inp && try_push_ok e (pfd inp)
   | PReturn _ _ inp | PProject _ inp | PLimit _ inp | PSkip _ inp | PSort _ inp | PDistinct inp
-  | PExpand _ _ _ _ _ inp | PAgg _ _ inp => pfd_ok inp
+  | PExpand _ _ _ _ _ _ inp | PAgg _ _ inp => pfd_ok inp
   | PJoin _ _ l r => pfd_ok l && pfd_ok r
   | PEmpty | PScan _ _ | PScanIn _ _ _ | PLeftJoin _ _ | PUnion _ _ => true
   end.
@@ -164,7 +178,7 @@ Fixpoint out_vars_fix (p : plan) : list var :=
   match p with
   | PScan x _ => [x]
   | PScanIn x _ inp => x :: out_vars_fix inp
-  | PExpand _ t ev _ _ inp => t :: (match ev with Some e => [e] | None => [] end) ++ out_vars_fix inp
+  | PExpand _ t ev _ _ h inp => xintro t ev h ++ out_vars_fix inp
   | PFilter _ inp => out_vars_fix inp
   | PProject items inp => aliases items ++ out_vars_fix inp
   | PJoin _ _ l r => out_vars_fix l ++ out_vars_fix r
@@ -202,11 +216,11 @@ Fixpoint try_push_fix (pred : expr) (op : plan) : plan :=
       if all_passed (expr_vars pred) items
       then PReturn items d (try_push_fix pred inp)
       else PFilter pred op
-  | PExpand f t ev d ty inp =>
-      let introduced := t :: (match ev with Some e => [e] | None => [] end) in
+  | PExpand f t ev d ty h inp =>
+      let introduced := xintro t ev h in
       if uses_any (expr_vars pred) introduced
       then PFilter pred op
-      else PExpand f t ev d ty (try_push_fix pred inp)
+      else PExpand f t ev d ty h (try_push_fix pred inp)
   | PJoin k cs l r =>
       let pv := expr_vars pred in
       let uses_left := uses_any pv (out_vars_fix l) in
@@ -227,7 +241,7 @@ Fixpoint pfd_fix (op : plan) : plan :=
   | PSkip n inp => PSkip n (pfd_fix inp)
   | PSort ks inp => PSort ks (pfd_fix inp)
   | PDistinct inp => PDistinct (pfd_fix inp)
-  | PExpand f t ev d ty inp => PExpand f t ev d ty (pfd_fix inp)
+  | PExpand f t ev d ty h inp => PExpand f t ev d ty h (pfd_fix inp)
   | PJoin k cs l r => PJoin k cs (pfd_fix l) (pfd_fix r)
   | PAgg gs ags inp => PAgg gs ags (pfd_fix inp)
   | PEmpty | PScan _ _ | PScanIn _ _ _ | PLeftJoin _ _ | PUnion _ _ => op
@@ -245,9 +259,10 @@ Fixpoint try_push_fix_ok (pred : expr) (op : plan) : bool :=
       if all_passed (expr_vars pred) items
       then through_ok (expr_vars pred) items inp && try_push_fix_ok pred inp
       else true
-  | PExpand f t ev d ty inp =>
-      let introduced := t :: (match ev with Some e => [e] | None => [] end) in
-      if uses_any (expr_vars pred) introduced then true else try_push_fix_ok pred inp
+  | PExpand f t ev d ty h inp =>
+      let introduced := xintro t ev h in
+      if uses_any (expr_vars pred) introduced then true
+      else disjointb (expr_vars pred) (xhidden h) && try_push_fix_ok pred inp
   | PJoin k cs l r =>
       let pv := expr_vars pred in
       let uses_left := uses_any pv (out_vars_fix l) in
@@ -264,12 +279,62 @@ Fixpoint pfd_fix_ok (op : plan) : bool :=
   match op with
   | PFilter e inp => pfd_fix_ok inp && try_push_fix_ok e (pfd_fix inp)
   | PReturn _ _ inp | PProject _ inp | PLimit _ inp | PSkip _ inp | PSort _ inp | PDistinct inp
-  | PExpand _ _ _ _ _ inp | PAgg _ _ inp => pfd_fix_ok inp
+  | PExpand _ _ _ _ _ _ inp | PAgg _ _ inp => pfd_fix_ok inp
   | PJoin _ _ l r => pfd_fix_ok l && pfd_fix_ok r
   | PEmpty | PScan _ _ | PScanIn _ _ _ | PLeftJoin _ _ | PUnion _ _ => true
   end.
 
 Definition k_push_fix (p : plan) : bool := negb (pfd_fix_ok p).
+
+(** *** which plans the patched push-down is proved to keep (ProofsOptPush [pfd_fix_scoped])
+    [wscoped]: every predicate and every projected expression mentions only columns of its input
+    (what the Binder checks); [names_ok]: no predicate variable is spelled like a column name the
+    planner invents ([_path_length_p], the name of an unaliased computed column, a Return alias). *)
+Definition plain_item (it : item) : bool :=
+  match fst it, snd it with EVar _, None => true | _, _ => false end.
+
+Definition computed_item (it : item) : bool :=
+  match fst it, snd it with EVar _, _ => false | _, Some _ => false | _, None => true end.
+
+Definition odd_items (items : list item) : list var :=
+  map item_name (filter (fun it => negb (plain_item it)) items).
+
+Fixpoint hidden_names (p : plan) : list var :=
+  match p with
+  | PEmpty | PScan _ _ => []
+  | PScanIn _ _ i => hidden_names i
+  | PExpand _ _ _ _ _ h i => xhidden h ++ hidden_names i
+  | PFilter _ i => hidden_names i
+  | PProject items i => map item_name (filter computed_item items) ++ hidden_names i
+  | PReturn items _ i => odd_items items ++ hidden_names i
+  | PJoin _ _ l r | PLeftJoin l r | PUnion l r => hidden_names l ++ hidden_names r
+  | PAgg gs ags i =>
+      map expr_name (filter (fun g => match g with EVar _ => false | _ => true end) gs)
+      ++ map agg_name (filter (fun a => match snd a with None => true | Some _ => false end) ags)
+      ++ hidden_names i
+  | PSort _ i | PSkip _ i | PLimit _ i | PDistinct i => hidden_names i
+  end.
+
+Fixpoint wscoped (p : plan) : bool :=
+  match p with
+  | PEmpty | PScan _ _ => true
+  | PScanIn _ _ i | PExpand _ _ _ _ _ _ i | PAgg _ _ i | PSort _ i | PSkip _ i | PLimit _ i | PDistinct i => wscoped i
+  | PFilter e i => subsetb (expr_vars e) (schema i) && wscoped i
+  | PProject items i | PReturn items _ i =>
+      forallb (fun it => subsetb (expr_vars (fst it)) (schema i)) items && wscoped i
+  | PJoin _ _ l r | PLeftJoin l r | PUnion l r => wscoped l && wscoped r
+  end.
+
+Fixpoint filter_vars (p : plan) : list var :=
+  match p with
+  | PEmpty | PScan _ _ => []
+  | PFilter e i => expr_vars e ++ filter_vars i
+  | PScanIn _ _ i | PExpand _ _ _ _ _ _ i | PProject _ i | PReturn _ _ i | PAgg _ _ i
+  | PSort _ i | PSkip _ i | PLimit _ i | PDistinct i => filter_vars i
+  | PJoin _ _ l r | PLeftJoin l r | PUnion l r => filter_vars l ++ filter_vars r
+  end.
+
+Definition names_ok (p : plan) : bool := disjointb (filter_vars p) (hidden_names p).
 
 (** ** Projection push-down *)
 Definition reqcol := (var * option string)%type.     (* Variable v | Property v p *)
@@ -296,7 +361,7 @@ Fixpoint required (p : plan) : list reqcol :=
       ++ required inp
   | PJoin _ cs l r =>
       flat_map (fun c => req_expr (fst c) ++ req_expr (snd c)) cs ++ required l ++ required r
-  | PExpand f t ev _ _ inp =>
+  | PExpand f t ev _ _ _ inp =>
       (f, None) :: (t, None) :: (match ev with Some e => [(e, None)] | None => [] end) ++ required inp
   | PLimit _ inp => required inp
   | PSkip _ inp => required inp
@@ -318,7 +383,7 @@ Fixpoint ppd_rec (p : plan) (req : list reqcol) : plan :=
       let rv := out_vars r in
       PJoin k cs (ppd_rec l (filter (fun c => mem (fst c) lv) req))
                  (ppd_rec r (filter (fun c => mem (fst c) rv) req))
-  | PExpand f t ev d ty inp => PExpand f t ev d ty (ppd_rec inp req)
+  | PExpand f t ev d ty h inp => PExpand f t ev d ty h (ppd_rec inp req)
   | PLimit n inp => PLimit n (ppd_rec inp req)
   | PSkip n inp => PSkip n (ppd_rec inp req)
   | PDistinct inp => PDistinct (ppd_rec inp req)
@@ -349,7 +414,7 @@ Fixpoint jt_collect (p : plan) : list (var * plan) * list joininfo * bool :=
   | PScan x _ => ([(x, p)], [], true)
   | PScanIn x _ _ => ([(x, p)], [], true)
   | PFilter _ inp => jt_collect inp           (* the predicate is forgotten *)
-  | PExpand _ t _ _ _ _ => ([(t, p)], [], true)
+  | PExpand _ t _ _ _ _ _ => ([(t, p)], [], true)
   | _ => ([], [], false)
   end.
 
@@ -466,8 +531,117 @@ Fixpoint reorder_chk (b a : plan) : bool :=
     | PSort ks i, PSort ks' j => list_eqb skey_eqb ks ks' && reorder_chk i j
     | PDistinct i, PDistinct j => reorder_chk i j
     | PAgg gs ags i, PAgg gs' ags' j => list_eqb expr_eqb gs gs' && list_eqb agg_eqb ags ags' && reorder_chk i j
-    | PExpand f t ev d ty i, PExpand f' t' ev' d' ty' j =>
-        String.eqb f f' && String.eqb t t' && ostr_eqb ev ev' && dir_eqb d d' && ostr_eqb ty ty' && reorder_chk i j
+    | PExpand f t ev d ty h i, PExpand f' t' ev' d' ty' h' j =>
+        String.eqb f f' && String.eqb t t' && ostr_eqb ev ev' && dir_eqb d d' && ostr_eqb ty ty' && hops_eqb h h'
+        && reorder_chk i j
+    | _, _ => plan_eqb b a
+    end.
+
+(** *** Proposed repair of C09-K2 (proposed-fixes/C09-reorder-joins.diff)
+    NOT the code of /repo: the relation "a is a plan the patched reorder_joins may return for b",
+    kept beside [reorder_chk] for the switch after the patch is committed.
+      [jt_collect_fix]: only Inner/Cross joins belong to a join tree; a Filter over a base relation is
+        a relation *with* its filter, a Filter over a join makes the tree unreorderable; a condition
+        whose sides are not  variable-of-the-left-input = variable-of-the-right-input  (by
+        [collect_output_variables]) makes it unreorderable; every condition variable must be the key
+        of a relation ([jt_extract_fix]),
+      [dp_tree_fix]: each node carries the crossing graph edges written  left side = right side
+        ([JoinGraph::get_conditions] swaps a condition whose [from] relation is on the right). *)
+Fixpoint base_var (p : plan) : option var :=
+  match p with
+  | PScan x _ => Some x
+  | PScanIn x _ _ => Some x
+  | PExpand _ t _ _ _ _ _ => Some t
+  | PFilter _ i => base_var i
+  | _ => None
+  end.
+
+Definition cond_oriented (l r : plan) (c : expr * expr) : bool :=
+  match cond_var (fst c), cond_var (snd c) with
+  | Some a, Some b => mem a (out_vars l) && mem b (out_vars r)
+  | _, _ => false
+  end.
+
+Fixpoint jt_collect_fix (p : plan) : list (var * plan) * list joininfo * bool :=
+  match p with
+  | PJoin k cs l r =>
+      let '(rl, cl, okl) := jt_collect_fix l in
+      let '(rr, cr, okr) := jt_collect_fix r in
+      (rl ++ rr, cl ++ cr ++ cond_infos cs,
+       (match k with JLeft => false | _ => true end) && forallb (cond_oriented l r) cs && okl && okr)
+  | PScan x _ => ([(x, p)], [], true)
+  | PScanIn x _ _ => ([(x, p)], [], true)
+  | PFilter _ inp =>
+      match base_var inp with
+      | Some v => ([(v, p)], [], true)
+      | None => ([], [], false)
+      end
+  | PExpand _ t _ _ _ _ _ => ([(t, p)], [], true)
+  | _ => ([], [], false)
+  end.
+
+Definition jt_extract_fix (p : plan) : option (list (var * plan) * list joininfo) :=
+  let '(rels, infos, ok) := jt_collect_fix p in
+  let known := map fst rels in
+  if ok && (2 <=? Z.of_nat (List.length rels))
+     && forallb (fun ji => mem (fst (fst ji)) known && mem (snd (fst ji)) known) infos
+  then Some (rels, infos) else None.
+
+Definition reorder_fires_fix (p : plan) : bool :=
+  match jt_extract_fix p with
+  | Some (rels, infos) => connected (List.length rels) (jg_edges rels infos)
+  | None => false
+  end.
+
+Definition orient (sl sr : list nat) (e : jedge) : expr * expr :=
+  match e with
+  | (i, j, c) => if nmem i sl && nmem j sr then c else (snd c, fst c)
+  end.
+
+Fixpoint dp_tree_fix (rels : list (var * plan)) (edges : list jedge) (a : plan) (used : list nat)
+  : option (list nat) :=
+  match a with
+  | PJoin JInner cs l r =>
+      match dp_tree_fix rels edges l used with
+      | Some sl =>
+          match dp_tree_fix rels edges r (sl ++ used) with
+          | Some sr =>
+              let crossing := filter (crosses sl sr) edges in
+              if negb (match crossing with [] => true | _ => false end)
+                 && conds_perm cs (map (orient sl sr) crossing)
+              then Some (sl ++ sr) else None
+          | None => None
+          end
+      | None => None
+      end
+  | _ => match find_rel a rels O used with Some i => Some [i] | None => None end
+  end.
+
+Definition dp_tree_fix_ok (rels : list (var * plan)) (edges : list jedge) (a : plan) : bool :=
+  match dp_tree_fix rels edges a [] with
+  | Some s => Nat.eqb (List.length s) (List.length rels)
+  | None => false
+  end.
+
+Fixpoint reorder_chk_fix (b a : plan) : bool :=
+  if reorder_fires_fix b then
+    match jt_extract_fix b with
+    | Some (rels, infos) => dp_tree_fix_ok rels (jg_edges rels infos) a
+    | None => false
+    end
+  else
+    match b, a with
+    | PReturn its d i, PReturn its' d' j => list_eqb item_eqb its its' && Bool.eqb d d' && reorder_chk_fix i j
+    | PProject its i, PProject its' j => list_eqb item_eqb its its' && reorder_chk_fix i j
+    | PFilter e i, PFilter e' j => expr_eqb e e' && reorder_chk_fix i j
+    | PLimit n i, PLimit m j => Nat.eqb n m && reorder_chk_fix i j
+    | PSkip n i, PSkip m j => Nat.eqb n m && reorder_chk_fix i j
+    | PSort ks i, PSort ks' j => list_eqb skey_eqb ks ks' && reorder_chk_fix i j
+    | PDistinct i, PDistinct j => reorder_chk_fix i j
+    | PAgg gs ags i, PAgg gs' ags' j => list_eqb expr_eqb gs gs' && list_eqb agg_eqb ags ags' && reorder_chk_fix i j
+    | PExpand f t ev d ty h i, PExpand f' t' ev' d' ty' h' j =>
+        String.eqb f f' && String.eqb t t' && ostr_eqb ev ev' && dir_eqb d d' && ostr_eqb ty ty' && hops_eqb h h'
+        && reorder_chk_fix i j
     | _, _ => plan_eqb b a
     end.
 
@@ -475,7 +649,7 @@ Fixpoint reorder_chk (b a : plan) : bool :=
 Fixpoint no_conds (p : plan) : bool :=
   match p with
   | PJoin _ cs l r => (match cs with [] => true | _ => false end) && no_conds l && no_conds r
-  | PScanIn _ _ i | PExpand _ _ _ _ _ i | PFilter _ i | PProject _ i | PReturn _ _ i | PAgg _ _ i
+  | PScanIn _ _ i | PExpand _ _ _ _ _ _ i | PFilter _ i | PProject _ i | PReturn _ _ i | PAgg _ _ i
   | PSort _ i | PSkip _ i | PLimit _ i | PDistinct i => no_conds i
   | PLeftJoin l r | PUnion l r => no_conds l && no_conds r
   | PEmpty | PScan _ _ => true
@@ -533,10 +707,6 @@ Definition jnf_eqb (p q : plan) : bool :=
 
 (** well-formed join tree: the leaves' column sets are pairwise disjoint and every filter inside
     the tree only mentions columns of its sub-tree *)
-Fixpoint nodupb (l : list var) : bool :=
-  match l with [] => true | x :: l' => negb (mem x l') && nodupb l' end.
-Definition subsetb (a b : list var) : bool := forallb (fun x => mem x b) a.
-
 Fixpoint filters_scoped (p : plan) : bool :=
   match p with
   | PJoin _ _ l r => filters_scoped l && filters_scoped r
@@ -550,7 +720,7 @@ Fixpoint uniform (p : plan) : bool :=
   match p with
   | PUnion a b => list_eqb String.eqb (schema a) (schema b) && uniform a && uniform b
   | PEmpty | PScan _ _ => true
-  | PScanIn _ _ i | PExpand _ _ _ _ _ i | PFilter _ i | PProject _ i | PReturn _ _ i | PAgg _ _ i
+  | PScanIn _ _ i | PExpand _ _ _ _ _ _ i | PFilter _ i | PProject _ i | PReturn _ _ i | PAgg _ _ i
   | PSort _ i | PSkip _ i | PLimit _ i | PDistinct i => uniform i
   | PJoin _ _ l r | PLeftJoin l r => uniform l && uniform r
   end.
